@@ -401,7 +401,9 @@ fn check_big(ctx: &mut Ctx, router: &VerifRouter, n: usize, kind: u8, writer: &s
         Err(e) => ctx.violation(&class("malformed-or-truncated"), true, witness(format!("{e}; {} bytes written", raw.len()))),
         Ok(p) => {
             let declared = p.header("content-length").and_then(|v| v.parse::<usize>().ok());
-            if declared != Some(n) { ctx.violation(&class("content-length"), true, witness(format!("Content-Length {declared:?}, payload of {n} bytes"))) }
+            // "Content-Length equal to the body length, or chunked coding": a declared length must be the right one; chunked is as good
+            let chunked = p.framing == crate::refmodel::http::Framing::Chunked;
+            if !chunked && declared != Some(n) && !(method == "HEAD" && declared.is_none() && p.header("transfer-encoding").is_some()) { ctx.violation(&class("content-length"), true, witness(format!("Content-Length {declared:?}, payload of {n} bytes"))) }
             else if method == "HEAD" { if p.body.is_empty() { ctx.pass("big:head", n > 0, n > 65536) } else { ctx.violation(&class("head-with-body"), true, witness(format!("{} body bytes", p.body.len()))) } }
             else if p.body != want {
                 let at = p.body.iter().zip(want.iter()).position(|(a, b)| a != b).unwrap_or(p.body.len().min(want.len()));
